@@ -97,6 +97,9 @@ pub struct AncContig {
     pub seed: u64,
     /// (period, total length) of a low-complexity stretch inserted in the middle
     pub low: Option<(u8, u16)>,
+    /// non-ACGT runs of the ancestor itself, inherited by every sample (scaffold gaps shared by
+    /// reference and targets): (position, length, kind) with kind 0..=5 = N, else an IUPAC code
+    pub gaps: Vec<(u16, u16, u8)>,
 }
 
 #[derive(Clone, Debug)]
@@ -106,6 +109,9 @@ pub enum Edit {
     Ins { contig: u8, pos: u16, len: u8, seed: u64 },
     NRun { contig: u8, pos: u16, len: u16 },
     Iupac { contig: u8, pos: u16, code: u8, run: u8 },
+    /// a variant (0 SNP, 1 deletion, 2 insertion) `dist` bases before (negative) or after the
+    /// `which`-th N run of the contig: literals right next to a gap that the reference shares
+    NearNRun { contig: u8, which: u8, dist: i8, kind: u8 },
     /// mutate one base inside the `which`-th occurrence of a reference splitter
     KnockSplitter { contig: u8, which: u16, offset: u8, iupac: Option<(i8, u8)> },
 }
@@ -149,6 +155,8 @@ pub struct Recipe {
     pub names: NameStyle,
     /// add this many tiny extra samples (for the >50 sample branch)
     pub tiny_samples: u16,
+    /// (sample, number of contigs, contig length, seed): extra short unrelated contigs
+    pub swarm: Option<(u8, u16, u8, u64)>,
 }
 
 // --------------------------------------------------------------- expansion --
@@ -167,6 +175,17 @@ fn expand_anc(a: &AncContig) -> Vec<u8> {
             let stretch: Vec<u8> = unit.iter().cycle().take(total as usize).copied().collect();
             let end = (at + stretch.len()).min(s.len());
             s.splice(at..end, stretch);
+        }
+    }
+    for (pos, len, kind) in &a.gaps {
+        if s.len() < 3 {
+            break;
+        }
+        let p = scale(*pos, s.len());
+        let l = (*len as usize).min(s.len() - p).max(1);
+        let c = if *kind <= 5 { b'N' } else { IUPAC[5 + (*kind as usize % 11)] };
+        for x in &mut s[p..p + l] {
+            *x = c;
         }
     }
     s
@@ -256,6 +275,49 @@ fn apply_edit(contigs: &mut Vec<(String, Vec<u8>)>, e: &Edit, k: usize, splitter
                     *x = IUPAC[5 + (*code as usize % 11)];
                 }
             }
+        }
+        Edit::NearNRun { contig, which, dist, kind } => {
+            let s = &mut contigs[pick(*contig, n_contigs)].1;
+            // N runs of this contig: (start, end)
+            let mut runs: Vec<(usize, usize)> = Vec::new();
+            let mut i = 0;
+            while i < s.len() {
+                if s[i] == b'N' {
+                    let st = i;
+                    while i < s.len() && s[i] == b'N' {
+                        i += 1;
+                    }
+                    runs.push((st, i));
+                } else {
+                    i += 1;
+                }
+            }
+            if runs.is_empty() {
+                return;
+            }
+            let (st, en) = runs[*which as usize % runs.len()];
+            let p = if *dist < 0 { st as i64 + *dist as i64 } else { en as i64 + *dist as i64 };
+            if p < 0 || p as usize >= s.len() || s[p as usize] == b'N' {
+                return;
+            }
+            let p = p as usize;
+            match kind % 3 {
+                0 => {
+                    s[p] = match s[p] {
+                        b'A' => b'C',
+                        b'C' => b'G',
+                        b'G' => b'T',
+                        _ => b'A',
+                    }
+                }
+                1 => {
+                    if s.len() > 1 {
+                        s.remove(p);
+                    }
+                }
+                _ => s.insert(p, b"ACGT"[(*which as usize + *kind as usize) % 4]),
+            }
+            aims.push("variant-next-to-n-run".into());
         }
         Edit::KnockSplitter { contig, which, offset, iupac } => {
             let Some(spl) = splitters else { return };
@@ -421,6 +483,15 @@ pub fn expand(rec: &Recipe) -> Collection {
         }
         raw_samples.push(contigs);
     }
+    if let Some((which, n, len, seed)) = rec.swarm {
+        let si = which as usize % raw_samples.len();
+        let mut r = SplitMix::new(seed);
+        for j in 0..n {
+            let l = 1 + (len as usize + (j as usize * 7) % 23) % 130;
+            raw_samples[si].push((format!("sw{}", j), random_bases(&mut r, l)));
+        }
+        aims.push("orphan-swarm".into());
+    }
     // tiny extra samples: single short contigs derived from the first ancestor contig
     for t in 0..rec.tiny_samples {
         let src = &anc[0];
@@ -502,6 +573,7 @@ fn edit_strategy() -> impl Strategy<Value = Edit> {
         2 => (any::<u8>(), any::<u16>(), 1u8..200, any::<u64>()).prop_map(|(contig, pos, len, seed)| Edit::Ins { contig, pos, len, seed }),
         3 => (any::<u8>(), any::<u16>(), prop_oneof![1u16..8, 8u16..300]).prop_map(|(contig, pos, len)| Edit::NRun { contig, pos, len }),
         4 => (any::<u8>(), any::<u16>(), 0u8..11, 1u8..5).prop_map(|(contig, pos, code, run)| Edit::Iupac { contig, pos, code, run }),
+        4 => (any::<u8>(), any::<u8>(), prop_oneof![-20i8..0, -40i8..40], 0u8..3).prop_map(|(contig, which, dist, kind)| Edit::NearNRun { contig, which, dist, kind }),
         6 => (any::<u8>(), any::<u16>(), any::<u8>(), prop::option::weighted(0.7, (-20i8..20, 0u8..11))).prop_map(|(contig, which, offset, iupac)| Edit::KnockSplitter { contig, which, offset, iupac }),
     ]
 }
@@ -529,7 +601,11 @@ fn anc_strategy(max_len: usize) -> impl Strategy<Value = AncContig> {
         3 => 100usize..2000,
         4 => 2000usize..max_len.max(2001),
     ];
-    (len, any::<u64>(), prop::option::weighted(0.2, (1u8..9, 20u16..400))).prop_map(|(len, seed, low)| AncContig { len, seed, low })
+    let gaps = prop_oneof![
+        5 => Just(Vec::new()),
+        4 => prop::collection::vec((any::<u16>(), prop_oneof![2 => 1u16..4, 4 => 4u16..40, 1 => 40u16..300], 0u8..9), 1..4),
+    ];
+    (len, any::<u64>(), prop::option::weighted(0.2, (1u8..9, 20u16..400)), gaps).prop_map(|(len, seed, low, gaps)| AncContig { len, seed, low, gaps })
 }
 
 #[derive(Clone, Copy, Debug)]
@@ -541,14 +617,17 @@ pub struct GenCfg {
     /// force a mode: Some(true) single file, Some(false) one file per sample
     pub single_file: Option<bool>,
     pub vary_presentation: bool,
+    /// probability (in %) of the "orphan swarm" branch: one sample gets 400..2600 extra short
+    /// unrelated contigs (each raw group then receives several packs within one batch)
+    pub swarm_pct: u32,
 }
 
 impl GenCfg {
     pub fn standard() -> GenCfg {
-        GenCfg { max_contig: 12_000, max_samples: 6, many_samples_pct: 4, single_file: None, vary_presentation: true }
+        GenCfg { max_contig: 12_000, max_samples: 6, many_samples_pct: 4, single_file: None, vary_presentation: true, swarm_pct: 4 }
     }
     pub fn small() -> GenCfg {
-        GenCfg { max_contig: 3_000, max_samples: 4, many_samples_pct: 0, single_file: None, vary_presentation: false }
+        GenCfg { max_contig: 3_000, max_samples: 4, many_samples_pct: 0, single_file: None, vary_presentation: false, swarm_pct: 0 }
     }
 }
 
@@ -563,6 +642,11 @@ pub fn recipe_strategy(cfg: GenCfg) -> impl Strategy<Value = Recipe> {
     } else {
         Just(0u16).boxed()
     };
+    let swarm = if cfg.swarm_pct > 0 {
+        prop::option::weighted(cfg.swarm_pct as f64 / 100.0, (any::<u8>(), prop_oneof![1 => 60u16..400, 3 => 400u16..2600], 8u8..120, any::<u64>())).boxed()
+    } else {
+        Just(None).boxed()
+    };
     let pres = if cfg.vary_presentation { presentation_strategy().boxed() } else { Just(Presentation::plain()).boxed() };
     (
         params_strategy(),
@@ -572,8 +656,9 @@ pub fn recipe_strategy(cfg: GenCfg) -> impl Strategy<Value = Recipe> {
         prop::collection::vec(sample_strategy(), 1..cfg.max_samples.max(2)),
         names,
         tiny,
+        swarm,
     )
-        .prop_map(move |(mut params, pres, pansn, anc, samples, names, tiny_samples)| {
+        .prop_map(move |(mut params, pres, pansn, anc, samples, names, tiny_samples, swarm)| {
             if let Some(sf) = cfg.single_file {
                 params.single_file = sf;
             }
@@ -583,7 +668,7 @@ pub fn recipe_strategy(cfg: GenCfg) -> impl Strategy<Value = Recipe> {
                 params.segment_size = 200;
             }
             let pansn = pansn || params.single_file;
-            Recipe { params, pres, pansn, anc, samples, names, tiny_samples }
+            Recipe { params, pres, pansn, anc, samples, names, tiny_samples, swarm }
         })
 }
 
